@@ -77,3 +77,14 @@ CONTRACTS = {
                 "check": nested_delegation}],
     ),
 }
+
+CONTRACTS.update({
+    "runners/_shared/helpers.py:map_inputs_to_func_params": dict(
+        props=["C05", "C06"],
+        params={"node": OBJ("HyperNode"), "inputs": DICT(STR, ANY)},
+        returns=DICT(STR, ANY),
+        # the node's own translation, nothing else (polymorphic: callable nodes and nested-graph nodes each translate their renames)
+        ensures=["result == node.map_inputs_to_params(inputs)"],
+        modifies=[],
+    ),
+})
